@@ -343,3 +343,56 @@ func (h *Hex) UnmarshalJSON(b []byte) error {
 	*h = out
 	return nil
 }
+
+type witnessTB struct {
+	t      *testing.T
+	failed bool
+	msg    string
+}
+
+type witnessFail struct{}
+
+func (w *witnessTB) Fatalf(f string, a ...any) {
+	w.failed = true
+	w.msg = fmt.Sprintf(f, a...)
+	panic(witnessFail{})
+}
+func (w *witnessTB) Logf(f string, a ...any) { w.t.Logf(f, a...) }
+
+// Witness runs the deterministic witness scenario of a listed known finding. While
+// the finding is listed as open AND the witness still violates the property, it
+// prints the KNOWN-FINDING line. It never fails the test: the finding is recorded, not
+// re-alarmed; if the witness passes (the defect was repaired) nothing is printed.
+func Witness[S any](t *testing.T, property, id, what string, s S, run func(*Ctx, S)) {
+	if !Known(id) {
+		t.Logf("finding %s is not listed as open; witness not run", id)
+		return
+	}
+	times := 5 // schedule-dependent witnesses get a few tries
+	for i := 0; i < times; i++ {
+		wt := &witnessTB{t: t}
+		b, _ := json.Marshal(s)
+		c := &Ctx{tb: wt, test: t.Name(), scenario: b, replaying: true}
+		func() {
+			defer func() {
+				if r := recover(); r != nil {
+					if _, ok := r.(witnessFail); ok {
+						return
+					}
+					if _, ok := r.(inconclusive); ok {
+						return
+					}
+					wt.failed = true
+					wt.msg = fmt.Sprintf("panic: %v", r)
+				}
+			}()
+			run(c, s)
+		}()
+		if wt.failed {
+			KnownFindingLine(property, fmt.Sprintf("id=%s %s", id, what))
+			t.Logf("witness still fails: %s", wt.msg)
+			return
+		}
+	}
+	t.Logf("witness for %s no longer fails", id)
+}
